@@ -432,7 +432,13 @@ class Color(NamedTuple):
                     f"expected three components in {original_color!r}"
                 )
             red, green, blue = components
-            triplet = ColorTriplet(int(red), int(green), int(blue))
+            try:
+                triplet = ColorTriplet(int(red), int(green), int(blue))
+            except ValueError:
+                # RE_COLOR admits what int() rejects ("", "1 2", very long numbers)
+                raise ColorParseError(
+                    f"color components must be numbers in {original_color!r}"
+                ) from None
             if not all(component <= 255 for component in triplet):
                 raise ColorParseError(
                     f"color components must be <= 255 in {original_color!r}"
